@@ -109,6 +109,7 @@ pub fn write_zip(entries: &[ZipEntry], comment: &[u8]) -> Vec<u8> {
 
 /// Physical choices of the archive, generated independently of the logical content.
 #[derive(Debug, Clone, Serialize, Deserialize, Default, PartialEq)]
+#[serde(default)]
 pub struct ZipKnobs {
     /// per entry (cycled): 0 = deflate 6, 1 = stored, 2 = deflate 1, 3 = deflate 9 + data descriptor, 4 = deflate 0
     pub methods: Vec<u8>,
